@@ -1,6 +1,8 @@
 import GeoVerif.Model.GeodInverse
 import GeoVerif.Model.GeodInvSeries
 import GeoVerif.Proofs.GeodInvSeries
+import GeoVerif.Model.GeodInvFull
+import GeoVerif.Proofs.GeodInvFull
 import GeoVerif.Spec.RealInst
 import Mathlib.Tactic.LinearCombination
 import Mathlib.Tactic.Positivity
@@ -146,5 +148,190 @@ example : ((-1 : ℝ) ≠ 0) ∧ ((1 : ℝ) ≠ 0) ∧
     (0 : ℝ) ≤ (-1) ^ 2 * 1 ^ 2 / 4 * ((-1) ^ 2 * 1 ^ 2 / 4 + 2 * (((-1) ^ 2 + 1 ^ 2 - 1) / 6) ^ 3) := by norm_num
 
 end Astroid
+
+/-! ### The whole of `GenInverse` behind the canonicalisation (`Model/GeodInvFull.lean`)
+
+The model is kernel-parametric: `Lengths`, `InverseStart`, `Lambda12` and the area integral are a record `Kernels`.  What follows
+holds for **every** such record (hence for the series solver, whose kernels are Lean models, and for `GeodesicExact`, whose
+kernel values the correspondence takes from the implementation), or under a stated contract on the kernels. -/
+
+section Full
+open GeoVerif.GeodLine GeoVerif.GeodInvSeries GeoVerif.GeodInvFull GeoVerif.Proofs.GeodInvFull
+
+/-! #### the Newton/bisection loop, every number type (binary64 included) -/
+
+/-- **iteration budget**: the loop of `GenInverse` evaluates the kernel at most `maxit2_ + 1` times (`numit = 0 … maxit2_`), and
+    `numit ≤ maxit2_` on exit — the `numit == maxit2_` exit comes before the fuel of the model runs out. -/
+theorem loop_budget {α : Type} [RealLike α] (p : Params α) (lam : α → α → Nat → LamOut α) (st : LoopSt α) :
+    (loop p lam (p.maxit2 + 1) 0 st 0 []).numit ≤ p.maxit2 ∧
+    (loop p lam (p.maxit2 + 1) 0 st 0 []).iterates.length = (loop p lam (p.maxit2 + 1) 0 st 0 []).numit + 1 ∧
+    (loop p lam (p.maxit2 + 1) 0 st 0 []).iterates.length ≤ p.maxit2 + 1 := by
+  have h1 := loop_numit_le p lam (p.maxit2 + 1) 0 st 0 [] (by omega) (by omega)
+  have h2 := (loop_evals p lam (p.maxit2 + 1) 0 st 0 []).2
+  simp only [List.length_nil, Nat.sub_zero, Nat.zero_add] at h2
+  exact ⟨h1, h2, by omega⟩
+
+/-- the fuel parameter of the model is immaterial: more of it gives the same result -/
+theorem loop_fuel_enough {α : Type} [RealLike α] (p : Params α) (lam : α → α → Nat → LamOut α) (st : LoopSt α) (extra : Nat) :
+    loop p lam (p.maxit2 + 1 + extra) 0 st 0 [] = loop p lam (p.maxit2 + 1) 0 st 0 [] :=
+  loop_fuel_irrelevant p lam (p.maxit2 + 1) extra 0 st 0 [] (by omega) (by omega)
+
+/-- **the bracket update** (`Geodesic.cpp` 381–384): the current point, `tripn`, `tripb` are untouched; either nothing moves, or
+    `v > 0` and the *upper* end becomes the current point, or `v < 0` and the *lower* end becomes the current point -/
+theorem bracket_update {α : Type} [RealLike α] (p : Params α) (numit : Nat) (st : LoopSt α) (v : α) :
+    (updBracket p numit st v).salp1 = st.salp1 ∧ (updBracket p numit st v).calp1 = st.calp1 ∧
+    (updBracket p numit st v).tripn = st.tripn ∧ (updBracket p numit st v).tripb = st.tripb ∧
+    (((updBracket p numit st v).salp1a = st.salp1a ∧ (updBracket p numit st v).calp1a = st.calp1a ∧
+      (updBracket p numit st v).salp1b = st.salp1b ∧ (updBracket p numit st v).calp1b = st.calp1b) ∨
+     (RealLike.ltb (RealLike.ofNat 0) v = true ∧ (updBracket p numit st v).salp1b = st.salp1 ∧ (updBracket p numit st v).calp1b = st.calp1 ∧
+      (updBracket p numit st v).salp1a = st.salp1a ∧ (updBracket p numit st v).calp1a = st.calp1a) ∨
+     (RealLike.ltb v (RealLike.ofNat 0) = true ∧ (updBracket p numit st v).salp1a = st.salp1 ∧ (updBracket p numit st v).calp1a = st.calp1 ∧
+      (updBracket p numit st v).salp1b = st.salp1b ∧ (updBracket p numit st v).calp1b = st.calp1b)) :=
+  updBracket_spec p numit st v
+
+/-- one pass of the loop moves the bracket exactly as the bracket update does (neither the Newton step nor the bisection
+    touches the ends) -/
+theorem pass_moves_bracket_by_update {α : Type} [RealLike α] (p : Params α) (numit : Nat) (st : LoopSt α) (v dv : α) :
+    (step p numit st v dv).salp1a = (updBracket p numit st v).salp1a ∧ (step p numit st v dv).calp1a = (updBracket p numit st v).calp1a ∧
+    (step p numit st v dv).salp1b = (updBracket p numit st v).salp1b ∧ (step p numit st v dv).calp1b = (updBracket p numit st v).calp1b :=
+  step_ends p numit st v dv
+
+/-- **bracket invariant, any kernel**: on exit from the loop each end of the bracket is either the initial one
+    (`(tiny_, 1)` resp. `(tiny_, −1)`) or a point at which `Lambda12` was evaluated with the sign that puts the root on the other
+    side (`< 0` at the lower end, `> 0` at the upper end) -/
+theorem bracket_ends_observed {α : Type} [RealLike α] (p : Params α) (lam : α → α → Nat → LamOut α) (salp1 calp1 : α) :
+    EndsObserved p lam (loop p lam (p.maxit2 + 1) 0 (initSt p.tiny salp1 calp1) 0 []).st :=
+  loop_ends_observed p lam _ _ _ _ _ ⟨Or.inl ⟨rfl, rfl⟩, Or.inl ⟨rfl, rfl⟩⟩
+
+/-- **from `maxit1_` on every pass is a bisection** (no Newton step is attempted) … -/
+theorem after_maxit1_bisection {α : Type} [RealLike α] (p : Params α) (numit : Nat) (st : LoopSt α) (v dv : α) (h : p.maxit1 ≤ numit) :
+    step p numit st v dv = bisect p (updBracket p numit st v) :=
+  step_after_maxit1 p numit st v dv h
+
+/-- … and beyond `maxit1_` the end on the side of the sign of `v` is replaced by the current point unconditionally -/
+theorem after_maxit1_replace {α : Type} [RealLike α] (p : Params α) (numit : Nat) (st : LoopSt α) (v : α) (h : p.maxit1 < numit) :
+    (RealLike.ltb (RealLike.ofNat 0) v = true →
+      (updBracket p numit st v).salp1b = st.salp1 ∧ (updBracket p numit st v).calp1b = st.calp1) ∧
+    (RealLike.ltb v (RealLike.ofNat 0) = true → RealLike.ltb (RealLike.ofNat 0) v = false →
+      (updBracket p numit st v).salp1a = st.salp1 ∧ (updBracket p numit st v).calp1a = st.calp1) :=
+  ⟨updBracket_after_maxit1_pos p numit st v h, updBracket_after_maxit1_neg p numit st v h⟩
+
+/-- a Newton step is only taken while `numit < maxit1_` and the derivative is positive -/
+theorem newton_step_guard {α : Type} [RealLike α] (p : Params α) (numit : Nat) (st s : LoopSt α) (v dv : α)
+    (h : newtonTry p numit st v dv = some s) : numit < p.maxit1 ∧ RealLike.ltb (RealLike.ofNat 0) dv = true :=
+  newtonTry_some p numit st s v dv h
+
+/-! #### the loop over ℝ -/
+
+/-- **the iterates stay in `(0, π)`**: if the starting point is a unit vector with positive sine (what `InverseStart` returns) and
+    `tiny_ > 0`, then on exit the current point is again a unit vector with positive sine and both ends have positive sine — for
+    every kernel -/
+theorem iterates_in_open_interval (p : Params ℝ) (lam : ℝ → ℝ → Nat → LamOut ℝ) (salp1 calp1 : ℝ) (ht : 0 < p.tiny)
+    (hs : 0 < salp1) (hu : salp1 ^ 2 + calp1 ^ 2 = 1) :
+    Good (loop p lam (p.maxit2 + 1) 0 (initSt p.tiny salp1 calp1) 0 []).st :=
+  loop_good p lam _ _ _ _ _ ⟨hs, hu, ht, ht⟩
+
+/-- **the loop is a bracketing method**: if the kernel is positive only above a root and negative only below it (`ρ` is the
+    cotangent of the root; `cot` decreases on `(0, π)`), and `ρ` lies between the cotangents of the initial ends, then it lies
+    strictly between the cotangents of the ends on exit -/
+theorem bracket_contains_root (p : Params ℝ) (lam : ℝ → ℝ → Nat → LamOut ℝ) (ρ salp1 calp1 : ℝ) (ht : 0 < p.tiny)
+    (hs : 0 < salp1) (hu : salp1 ^ 2 + calp1 ^ 2 = 1) (hc : SignContract lam ρ) (h0 : -1 / p.tiny < ρ ∧ ρ < 1 / p.tiny) :
+    Brackets ρ (loop p lam (p.maxit2 + 1) 0 (initSt p.tiny salp1 calp1) 0 []).st := by
+  apply loop_brackets p lam ρ _ _ _ _ _ hc ⟨hs, hu, ht, ht⟩
+  show -(@OfNat.ofNat ℝ 1 RealLike.Lits.instLit) / p.tiny < ρ ∧ ρ < (@OfNat.ofNat ℝ 1 RealLike.Lits.instLit) / p.tiny
+  rw [lit_one]; exact h0
+
+/-- non-vacuity of the contract: the kernel `v = ρ − cot α₁` (increasing in `α₁`, root at `cot α₁ = ρ`) satisfies it -/
+example (ρ : ℝ) : SignContract (fun s c _ => ⟨ρ - c / s, 0, 0, 0, 0, 0, 0, 0, 0, 0, 1⟩) ρ := by
+  intro s c n _
+  constructor <;> intro h <;> simp only [] at h <;> linarith
+
+/-- up to `maxit1_` an end is only replaced by a point on its inner side -/
+theorem bracket_ends_monotone (p : Params ℝ) (numit : Nat) (st : LoopSt ℝ) (v : ℝ) (h : numit ≤ p.maxit1) :
+    (updBracket p numit st v).calp1a / (updBracket p numit st v).salp1a ≤ st.calp1a / st.salp1a ∧
+    st.calp1b / st.salp1b ≤ (updBracket p numit st v).calp1b / (updBracket p numit st v).salp1b :=
+  updBracket_monotone p numit st v h
+
+/-- **a bisection puts the new point strictly inside the bracket**: unit vector, positive sine, cotangent the mediant
+    `(calp1a + calp1b)/(salp1a + salp1b)` of the ends' -/
+theorem bisection_inside_bracket (p : Params ℝ) (st : LoopSt ℝ) (ha : 0 < st.salp1a) (hb : 0 < st.salp1b)
+    (hab : st.calp1b / st.salp1b < st.calp1a / st.salp1a) :
+    0 < (bisect p st).salp1 ∧ (bisect p st).salp1 ^ 2 + (bisect p st).calp1 ^ 2 = 1 ∧
+    (bisect p st).calp1 / (bisect p st).salp1 = (st.calp1a + st.calp1b) / (st.salp1a + st.salp1b) ∧
+    st.calp1b / st.salp1b < (bisect p st).calp1 / (bisect p st).salp1 ∧
+    (bisect p st).calp1 / (bisect p st).salp1 < st.calp1a / st.salp1a :=
+  ⟨(bisect_pos_unit p st ha hb).1, (bisect_pos_unit p st ha hb).2.1, (bisect_pos_unit p st ha hb).2.2,
+   (bisect_between p st ha hb hab).1, (bisect_between p st ha hb hab).2⟩
+
+/-- non-vacuity: the initial bracket `(tiny, 1) – (tiny, −1)` -/
+example : (0 : ℝ) < 1 / 2 ∧ (-1 : ℝ) / (1 / 2) < 1 / (1 / 2) := by norm_num
+
+/-- **a bisection halves the bracket, in the angle**: when the ends are the directions `α_a`, `α_b` (unit vectors
+    `(sin α, cos α)`, less than a half turn apart) the new point is the direction `(α_a + α_b)/2` — so each of the two halves
+    `[α_a, α]`, `[α, α_b]`, one of which is the next bracket, is half as wide -/
+theorem bisection_halves_angle (p : Params ℝ) (st : LoopSt ℝ) (A B : ℝ) (h : |A - B| < Real.pi)
+    (ha : st.salp1a = Real.sin A ∧ st.calp1a = Real.cos A) (hb : st.salp1b = Real.sin B ∧ st.calp1b = Real.cos B) :
+    (bisect p st).salp1 = Real.sin ((A + B) / 2) ∧ (bisect p st).calp1 = Real.cos ((A + B) / 2) := by
+  have := bisect_angle A B h
+  have e : ((bisect p st).salp1, (bisect p st).calp1) = norm2 ((Real.sin A + Real.sin B) / 2) ((Real.cos A + Real.cos B) / 2) := by
+    unfold bisect; simp only [lit_two, ha.1, ha.2, hb.1, hb.2]
+  rw [this] at e
+  exact ⟨congrArg Prod.fst e, congrArg Prod.snd e⟩
+
+example : |(1 : ℝ) - 2| < Real.pi := by
+  have := Real.two_le_pi; rw [abs_lt]; constructor <;> linarith
+
+/-! #### output ranges -/
+
+/-- **`0 ≤ a12 ≤ 180` for the whole function**, every branch, every kernel whose arc lengths are in `[0, π]`; `lon12 ∈ [0, 180]`
+    with a non-negative `AngDiff` error term is what the canonicalisation delivers -/
+theorem a12_range (p : Params ℝ) (k : Kernels ℝ) (β : Beta ℝ) (c : Canon ℝ) (ls sw lt : Int) (hf1 : p.f1 = 1 - p.f) (hf : p.f < 1)
+    (hl0 : 0 ≤ c.lon12) (hl1 : c.lon12 ≤ 180) (he : 0 ≤ c.lon12e) (hstart : k.start.sig12 ≤ Real.pi)
+    (hlam : ∀ s c n, 0 ≤ (k.lam s c n).sig12 ∧ (k.lam s c n).sig12 ≤ Real.pi) :
+    0 ≤ (genInverse p k β c ls sw lt).out.a12 ∧ (genInverse p k β c ls sw lt).out.a12 ≤ 180 :=
+  solve_a12_range p k β c hf1 hf hl0 hl1 he hstart hlam
+
+/-- … in particular for the series solver, with no hypothesis on kernels: its `Lambda12` and `InverseStart` satisfy the contract -/
+theorem a12_range_series (a f tiny eps0 : ℝ) (maxit2 : Nat) (s1 c1 s2 c2 : ℝ) (c : Canon ℝ) (ls sw lt : Int) (hf : f < 1)
+    (hl0 : 0 ≤ c.lon12) (hl1 : c.lon12 ≤ 180) (he : 0 ≤ c.lon12e) :
+    0 ≤ (genInverseSeries (geodesic a f tiny eps0) eps0 maxit2 s1 c1 s2 c2 c ls sw lt).out.a12 ∧
+    (genInverseSeries (geodesic a f tiny eps0) eps0 maxit2 s1 c1 s2 c2 c ls sw lt).out.a12 ≤ 180 := by
+  unfold genInverseSeries
+  apply a12_range
+  · show (@OfNat.ofNat ℝ 1 RealLike.Lits.instLit) - f = 1 - f
+    rw [lit_one]
+  · exact hf
+  · exact hl0
+  · exact hl1
+  · exact he
+  · exact inverseStart_sig12 _ _ _ _ _ _ _ _ _ _ _
+  · intro s c' n; exact lambda12_sig12 _ _ _ _ _ _ _ _ _ _ _
+
+example : (1 / 298 : ℝ) < 1 ∧ (0 : ℝ) ≤ 179 ∧ (179 : ℝ) ≤ 180 := by norm_num
+
+/-- **`s12 ≥ 0` on the short-line branch** (for `b ≥ 0` and an `InverseStart` with `dnm ≥ 0`) -/
+theorem s12_nonneg_short (p : Params ℝ) (k : Kernels ℝ) (β : Beta ℝ) (c : Canon ℝ) (ls sw lt : Int)
+    (hb : (genInverse p k β c ls sw lt).sol.branch = .short) (hpb : 0 ≤ p.b) (hd : 0 ≤ k.start.dnm) :
+    0 ≤ (genInverse p k β c ls sw lt).out.s12 := by
+  have hs := solve_short p k β c hb
+  show 0 ≤ (restore ls sw lt (solve p k β c).1 _).s12
+  rw [restore_s12, hs.2]
+  exact shortLine_s12 p _ _ (by simpa [lit_zero] using hs.1) hpb hd
+
+/-- **`s12 ≥ 0` on the equatorial branch** -/
+theorem s12_nonneg_equatorial (p : Params ℝ) (k : Kernels ℝ) (β : Beta ℝ) (c : Canon ℝ) (ls sw lt : Int)
+    (hb : (genInverse p k β c ls sw lt).sol.branch = .equatorial) (ha : 0 ≤ p.a) (hl : 0 ≤ c.lon12) :
+    0 ≤ (genInverse p k β c ls sw lt).out.s12 := by
+  have hs := solve_equatorial p k β c hb
+  show 0 ≤ (restore ls sw lt (solve p k β c).1 _).s12
+  rw [restore_s12, hs.2]
+  exact equatorial_s12 p c ha hl
+
+/-- the series `InverseStart` has `dnm ≥ 0` (hypothesis of `s12_nonneg_short`) -/
+theorem series_dnm_nonneg (g : Geod ℝ) (eps0 sbet1 cbet1 dn1 sbet2 cbet2 dn2 lam12 slam12 clam12 : ℝ) :
+    0 ≤ (inverseStart g eps0 sbet1 cbet1 dn1 sbet2 cbet2 dn2 lam12 slam12 clam12).dnm :=
+  inverseStart_dnm g eps0 sbet1 cbet1 dn1 sbet2 cbet2 dn2 lam12 slam12 clam12
+
+end Full
 
 end GeoVerif.Props.C02
